@@ -7,6 +7,9 @@ import MysyncModel.Replay.Util
 import Std.Data.HashSet
 import MysyncModel.Replay.C12
 import MysyncModel.Replay.C13
+import MysyncModel.Replay.C18
+import MysyncModel.Replay.C17
+import MysyncModel.Replay.C16
 
 open Lean Replay
 
@@ -14,7 +17,12 @@ def handlers : List (String × Handler) := [
   ("c12", Replay.C12.handle),
   ("c13pair", Replay.C13.handlePair),
   ("c13iv", Replay.C13.handleIv),
-  ("c14", Replay.C13.handleList)
+  ("c14", Replay.C13.handleList),
+  ("c18", Replay.C18.handle),
+  ("c17host", Replay.C17.handleHost),
+  ("c17pass", Replay.C17.handlePass),
+  ("c16bsf", Replay.C16.handleBsf),
+  ("c16repair", Replay.C16.handleRepair)
 ]
 
 partial def loop (h : IO.FS.Stream) (seen : Std.HashSet UInt64) (a : Acc) : IO Acc := do
